@@ -197,7 +197,13 @@ fn r1(t: &mut Tape, prog: &mut Prog, into: bool) -> Option<u8> {
     }
     // cut after a step; only single-relation prefixes (no join before the cut) so that the
     // qualifier to re-point is unambiguous
-    let k = 1 + t.choose(n);
+    let mut k = 1 + t.choose(n);
+    // often: cut between a sort and the take that follows it (the take then relies on the order
+    // it inherits from the named prefix)
+    let cuts: Vec<usize> = (1..n).filter(|i| matches!(prog.main.steps[i - 1], Step::Sort(_)) && matches!(prog.main.steps[*i], Step::Take { .. })).collect();
+    if !cuts.is_empty() && t.chance(1, 2) {
+        k = cuts[t.choose(cuts.len())];
+    }
     if prog.main.steps[..k].iter().any(|s| matches!(s, Step::Join { .. })) {
         return None;
     }
